@@ -44,6 +44,9 @@ Theorem C03_handoff_frames :
 Proof. split; [exact frames_two_qubit | split; [exact frames_one_qubit | exact frame_phases_unit]]. Qed.
 Print Assumptions C03_handoff_frames.
 
+(* NOTE: in FrameSim the inverse frame is not updated by OpZ, so wf_prog below excludes programs that apply a one-qubit gate
+   after an rz on the same qubit; the end-to-end statements further down (C03_run_invariant, the C03_noise_free_born theorems) use
+   NoiseFreeRun.nf_step, which does update it, and have no such restriction. *)
 (* 3. Circuit level, for every commutative ring, every number of qubits, every program and every initial state:
       a simulator that (a) keeps a diagonal frame, (b) applies one- and two-qubit gates in the framed form of statement 2
       and updates the frame as written, (c) implements rz by multiplying the frame entry, maintains
